@@ -452,7 +452,7 @@ def annotate_closures(sf, ed, spec, lo, hi, used):
             ed.ins(st[b1].end, ' }')
     for key in hints.values():
         used.add(key)
-        if key not in matched:
+        if key not in matched and not (len(key) > 2 and key[2] == 'opt'):
             # the closure this contract was written for is gone or has changed: without its contract the enclosing
             # function cannot be decided (a failed proof would not mean anything)
             raise ExtractError('%s: closure hint <<%s>> matches no closure (anchor lost)' % (spec.path, key[1]))
@@ -1213,12 +1213,13 @@ def expand_fragment(frag_name, text, out_lines, regions, log, vacuity=False):
                     if w[0] in ('pre', 'spec', 'entry', 'exit', 'sig', 'tail'):
                         flush()
                         cur_sec = w[0]
-                    elif w[0] == 'closure':
+                    elif w[0] in ('closure', 'closure?'):
                         flush()
-                        mc = re.match(r'^closure\s+<<(.*)>>\s*$', d2)
+                        mc = re.match(r'^closure(\??)\s+<<(.*)>>\s*$', d2)
                         if not mc:
                             raise ExtractError('%s: closure hints are keyed by text: `closure <<|x| body>>` (%s)' % (frag_name, d2))
-                        cur_sec = ('closuret', mc.group(1))
+                        # `closure? <<..>>`: optional hint -- if the closure is gone the function is verified without it
+                        cur_sec = ('closuret', mc.group(2), 'opt') if mc.group(1) else ('closuret', mc.group(2))
                     elif w[0] == 'loop':
                         flush()
                         ml2 = re.match(r'^loop\s+<<(.*)>>\s*$', d2)
